@@ -88,6 +88,24 @@ def histories(kind="any", counts=False, max_size=4, poke=False):
                         st.just("sample")),
               st.builds(lambda a, i: [{"op": "data", "axis": a, "i": i}],
                         st.just("observation"), st.integers(0, 7))]
+    # a read on one axis followed by an in-place edit along the other (or
+    # the same) axis: what a cache filled by the read must not survive
+    edit_ = st.one_of(
+        st.builds(lambda a: {"op": "scale", "axis": a, "inplace": True}, AX),
+        st.builds(lambda a: {"op": "zero_max", "axis": a, "inplace": True},
+                  AX),
+        st.builds(lambda a, mk: {"op": "filter", "axis": a, "mask": mk,
+                                 "inplace": True, "how": "ids"}, AX, MASK))
+    read_ = st.one_of(
+        st.builds(lambda a, i: {"op": "data", "axis": a, "i": i}, AX,
+                  st.integers(0, 7)),
+        st.builds(lambda a: {"op": "iter", "axis": a}, AX),
+        st.just({"op": "str"}), st.just({"op": "nnz"}),
+        st.builds(lambda a: {"op": "sum", "axis": a},
+                  st.sampled_from(["sample", "observation"])))
+    if kind != "read":
+        layout = layout + [st.tuples(read_, edit_).map(list),
+                           st.tuples(read_, read_, edit_).map(list)]
     if kind == "read":
         tail = st.one_of(
             st.just([]), st.just([]), *layout,
